@@ -840,6 +840,31 @@ func (c *SpecCtx) call(e *ECall) (Term, error) {
 			return Term{fmt.Sprintf("(rd_len %s)", r), "Int", nil}, nil
 		}
 		return Term{fmt.Sprintf("(select %s %s)", vc.get(c.state(), vc.rdposComp()), r), "Int", nil}, nil
+	case "mvisited":
+		// mvisited(m, k): key k has been visited by the iteration currently running over map m
+		x, err := c.eval(e.Args[0])
+		if err != nil {
+			return Term{}, err
+		}
+		mt, ok := x.T.Underlying().(*types.Map)
+		if x.T == nil || !ok {
+			return Term{}, fmt.Errorf("mvisited of a non-map")
+		}
+		it, ok := mapIterByTerm[vc][typeKey(mt)]
+		if !ok {
+			return Term{}, fmt.Errorf("mvisited: no iteration over %s is open", exprString(e.Args[0]))
+		}
+		k, err := c.eval(e.Args[1])
+		if err != nil {
+			return Term{}, err
+		}
+		return Term{fmt.Sprintf("(select (select %s %s) %s)", vc.get(c.state(), vc.mapIterComp(mt.Key())), it, k.S), "Bool", nil}, nil
+	case "mlen":
+		x, err := c.eval(e.Args[0])
+		if err != nil {
+			return Term{}, err
+		}
+		return Term{fmt.Sprintf("(select %s %s)", vc.get(c.state(), vc.mapLenComp()), x.S), "Int", types.Typ[types.Int]}, nil
 	case "mapof", "mhas", "mval":
 		x, err := c.eval(e.Args[0])
 		if err != nil {
